@@ -422,7 +422,7 @@ pub fn run(run: &Arc<Run>) {
     let seed = run.cfg.seed;
     let levels = level_grid(seed, 8);
     run.set_rule(
-        "9 producers (Arithmetic, Geometric, Harmonic (inside the positivity proviso), Paired, Unpaired for f32/f64; proportion::ci and its front-ends ci_wilson_ratio / Stats::ci / ci_true in rotation, ci_z_normal, quantile::ci_indices, quantile::ci) x seeded admissible inputs x the whole level grid (26 levels incl. dyadic ones and levels < 1/2) x 3 kinds: \
+        "9 producers (Arithmetic, Geometric, Harmonic (inside the positivity proviso), Paired, Unpaired for f32/f64; proportion::ci and its front-ends ci_wilson_ratio / Stats::ci / ci_true in rotation, ci_z_normal, quantile::ci_indices, quantile::ci) x seeded admissible inputs x the whole level grid (28 levels incl. dyadic ones, levels < 1/2 and two seeded tail levels) x 3 kinds: \
          (a) one-sided(L) bound = two-sided(2L-1) bound (bit-exact at dyadic L, 1e-12 of the half-width otherwise; ranks exactly), (b) CI(L1) included in CI(L2) for all ordered level pairs at least 1e-3 apart in probability, judged by the crate's includes() and by the extended-real model on the raw bounds, \
          (c) two-sided intervals and one-sided ones at L >= 1/2 contain the point estimate (ranks: within one position), (d) result kind / natural far ends match the confidence. distinct = (producer, confidence, interval) fingerprints.",
     );
